@@ -259,7 +259,9 @@ pub fn c18(tier: &str, seed: u64, meta: &str) -> Report {
                             // the affixes are those of the other wrapped candidates (e.g. the transliteration)
                             if !list.iter().filter(|c| !emo_items.contains(c) && **c != t).all(|c| c.starts_with(pre) && c.ends_with(post)) { ok = false; }
                         }
-                        if !ok { rep.fail(info("typing an English emoji name does not offer all its emoji, in table order, wrapped like the word", s)); }
+                        let meta_edge = text.chars().next().map(|c| PUNCT.contains(c)).unwrap_or(false) || text.chars().last().map(|c| PUNCT.contains(c)).unwrap_or(false);
+                        if !ok && meta_edge { rep.known.push(json!({"class": "name-not-a-word", "name": text, "typed": t})); }
+                        else if !ok { rep.fail(info("typing an English emoji name does not offer all its emoji, in table order, wrapped like the word", s)); }
                         if es.len() > 1 { rep.nontrivial_key(&format!("n {} {}", bits, t)); }
                         if rep.samples.len() < 2 && i % 97 == 0 { rep.sample(info("sample", s)); }
                         // frame clause: the non-emoji candidates are the ANSI list
@@ -314,7 +316,9 @@ pub fn c18(tier: &str, seed: u64, meta: &str) -> Report {
                         for (it, e) in emo_items.iter().zip(es.iter()) { if **it != format!("{}{}{}", pre, e, post) { ok = false; } }
                         if !list[0].starts_with(pre) || !list[0].ends_with(post) { ok = false; }
                     }
-                    if !ok {
+                    let meta_edge = name.chars().next().map(|c| PUNCT.contains(c)).unwrap_or(false) || name.chars().last().map(|c| PUNCT.contains(c)).unwrap_or(false);
+                    if !ok && meta_edge { rep.known.push(json!({"class": "name-not-a-word", "name": name})); }
+                    else if !ok {
                         rep.fail(json!({"what": "typing a Bengali emoji name does not offer its emoji in table order (as far as the nine-candidate cap allows), wrapped like the word",
                             "name": name, "typed_wrapped_in": [a, b], "method": "fixed (Probhat)", "option_bits": bits, "table_emoji": es, "candidates": list, "session": s.describe()}));
                     }
